@@ -1,6 +1,8 @@
 package embedded
 
 import (
+	"encoding/binary"
+	"encoding/json"
 	"strconv"
 
 	"reduction.dev/reduction/connectors"
@@ -25,19 +27,24 @@ type SourceSplitter struct {
 }
 
 func (s *SourceSplitter) Start(ckpt *snapshotpb.SourceCheckpoint) error {
-	// Embedded SourceSplitter does not checkpoint
-	if ckpt != nil {
-		panic("embedded source splitter does not support checkpointing")
+	// Resume each split from the cursor in its checkpointed reader state
+	cursors := make(map[string][]byte)
+	for _, state := range ckpt.GetSplitStates() {
+		var sp split
+		if err := json.Unmarshal(state, &sp); err != nil {
+			return err
+		}
+		cursors[sp.SplitID] = binary.BigEndian.AppendUint64(nil, uint64(sp.Cursor))
 	}
 
-	// Create splits all with nil cursors
+	// Create splits with nil cursors unless checkpointed
 	sourceSplits := make([]*workerpb.SourceSplit, s.splitCount)
 	for splitIndex := range iteru.Times(s.splitCount) {
 		splitID := strconv.Itoa(splitIndex)
 		sourceSplits[splitIndex] = &workerpb.SourceSplit{
 			SplitId:  splitID,
 			SourceId: "TBD",
-			Cursor:   nil,
+			Cursor:   cursors[splitID],
 		}
 	}
 
